@@ -160,6 +160,7 @@ void XmppSocket::setSocket(QSslSocket *socket)
 
         // do not emit started() with direct TLS (this happens in encrypted())
         if (!m_directTls) {
+            m_undecodedData.clear();
             m_dataBuffer.clear();
             m_streamOpenElement.clear();
             Q_EMIT started();
@@ -168,6 +169,7 @@ void XmppSocket::setSocket(QSslSocket *socket)
     QObject::connect(socket, &QSslSocket::encrypted, this, [this]() {
         debug(u"Socket encrypted"_s);
         // this happens with direct TLS or STARTTLS
+        m_undecodedData.clear();
         m_dataBuffer.clear();
         m_streamOpenElement.clear();
         Q_EMIT started();
@@ -176,7 +178,26 @@ void XmppSocket::setSocket(QSslSocket *socket)
         warning(u"Socket error: "_s + m_socket->errorString());
     });
     QObject::connect(socket, &QSslSocket::readyRead, this, [this]() {
-        processData(QString::fromUtf8(m_socket->readAll()));
+        // A read may end inside a multi-byte UTF-8 character: only decode complete characters and
+        // keep the remaining bytes for the next read.
+        m_undecodedData.append(m_socket->readAll());
+        int end = m_undecodedData.size();
+        int start = end;
+        while (start > 0 && end - start < 3 && (uchar(m_undecodedData.at(start - 1)) & 0xC0) == 0x80) {
+            start--;
+        }
+        if (start > 0) {
+            const auto lead = uchar(m_undecodedData.at(start - 1));
+            const int length = lead >= 0xF0 ? 4 : (lead >= 0xE0 ? 3 : (lead >= 0xC0 ? 2 : 1));
+            if (length > end - (start - 1)) {
+                end = start - 1;
+            }
+        }
+        if (end > 0) {
+            const auto text = QString::fromUtf8(m_undecodedData.constData(), end);
+            m_undecodedData.remove(0, end);
+            processData(text);
+        }
     });
 }
 
